@@ -274,7 +274,11 @@ int main(int argc, char** argv) {
             unboundLine();
             tctxLine(*r.second, id);
             std::cout << "ipush " << h3(lo) << " " << h3(hi) << " res " << hex(r.first.lower()) << " "
-                      << hex(r.first.upper()) << " " << (r.first.isSafe() ? 1 : 0) << " same " << (same ? 1 : 0) << "\n";
+                      << hex(r.first.upper()) << " " << (r.first.isSafe() ? 1 : 0) << " same " << (same ? 1 : 0);
+            {   // the plain tree's interval on the same box (to tell oracle-specific misses from shared ones)
+                Interval ip = evP->eval(lo, hi);
+                std::cout << " pres " << hex(ip.lower()) << " " << hex(ip.upper()) << " " << (ip.isSafe() ? 1 : 0) << "\n";
+            }
             std::cout << "pushed " << dumpTape(*r.second) << "\n";
             stack.push_back(r.second);
             stackId.push_back(id);
